@@ -3,12 +3,15 @@
      for every well-typed script m and every witness the satisfier returns, the instrumented run of the
      encoded script counts at most static_ops + max_exec_op_count consensus opcodes
      (ExtData::sat_op_count), for ALL constructors.
-   Proved here (_partial): the same on the computable class [ops_traced] -- the path-sensitive bound
-   [pcms] is within the figure; path-sensitive at j:, or_d, or_i, all-paths elsewhere -- which strictly
-   contains [ops_covered] (C09_ops_traced_strict: it contains the script on which the all-executions
-   form is refuted).  Still outside: a multi skipped by a dissatisfied j: (or an unsatisfiable or_d /
-   or_c / andor branch) that sits below and_b, or_b, and_v, andor, or_c, thresh or a wrapper
-   (C09_ops_traced_open names the smallest such script); the per-run oracle measures those. *)
+   Proved here: C09_ops_trace_table, the traced Theorem A, for ALL constructors with the path-sensitive
+   bound [pcms] (every IF decision read off the state Theorem A gives; thresh: every choice of exactly k
+   satisfied children; multi: n keys in both modes); and (_partial) the comparison with ExtData's figure
+   on the computable class [ops_traced] = "pcms is within the figure", which strictly contains
+   [ops_covered] (C09_ops_traced_strict: it contains the script on which the all-executions form is
+   refuted; C09_ops_traced_orb_thresh: skipped multis below or_b / thresh).  Still outside
+   (C09_ops_traced_open): pcms maximises over all alternatives of the table, ExtData over those with a
+   figure; a statically unsatisfiable branch (sat_data = None) that contains a multi is counted by pcms
+   only.  No table satisfaction takes such a branch, so nothing is refuted there. *)
 From Verif Require Import Exec Ser Spend Ast Types TypeCheck SatSpec Sat TheoremA SatProofs.
 From Verif Require Import ExecTr ExtModel ExtProofs ExtSize ExtOps OpsTraceBase OpsTrace OpsTraceMain DescSpendExamples.
 Local Open Scope N_scope.
@@ -58,9 +61,19 @@ Theorem C09_ops_traced_strict :
 Proof. exact ops_traced_strict. Qed.
 Print Assumptions C09_ops_traced_strict.
 
+Theorem C09_ops_traced_orb_thresh :
+  ops_covered as_written cx_segwit ot_orb = false /\ ops_traced as_written cx_segwit ot_orb = true
+  /\ pcms ot_orb = (3, 0) /\ ast_cms ot_orb = 6
+  /\ ops_covered as_written cx_segwit ot_thr = false /\ ops_traced as_written cx_segwit ot_thr = true
+  /\ pcms ot_thr = (3, 0) /\ ast_cms ot_thr = 8.
+Proof. exact ops_traced_orb_thresh. Qed.
+Print Assumptions C09_ops_traced_orb_thresh.
+
 Theorem C09_ops_traced_open :
-  (exists t, type_of ot_open = ROk t) /\ ops_traced as_written cx_segwit ot_open = false /\ fst (pcms ot_open) = 6
-  /\ option_map sd_eops (sat_data (ext_of_gen as_written cx_segwit ot_open)) = Some 3.
+  (exists t, type_of ot_open = ROk t) /\ ops_traced as_written cx_segwit ot_open = false /\ fst (pcms ot_open) = 3
+  /\ option_map sd_eops (sat_data (ext_of_gen as_written cx_segwit ot_open)) = Some 0
+  /\ sat_data (ext_of_gen as_written cx_segwit (MAndV (MVerify (MMulti 1 [1; 2; 3])) MFalse)) = None
+  /\ forall ke A, all_sat ke A (MAndV (MVerify (MMulti 1 [1; 2; 3])) MFalse) = [].
 Proof. exact ops_traced_open. Qed.
 Print Assumptions C09_ops_traced_open.
 
